@@ -289,3 +289,18 @@ def C12_sampleDoc : QueryDoc :=
                 sel := .cons (.field (str "c") (str "c") [] [] .nil Pos.zero) .nil, pos := Pos.zero }] }
 
 example : Formattable C12_sampleDoc := by decide
+
+/-- FINDING (input that is not well-formed UTF-8): `strRaw` in `Formattable` cannot be dropped even
+    for PARSED documents.  The lexer keeps the bytes of a string literal as they are until the first
+    escape sequence, so `{a(s:"⇥\xFF")}` (a raw TAB, then the ill-formed byte FF) parses with the
+    value 09 FF; the formatter writes the TAB as `\t`, and after that escape the lexer re-encodes what
+    it decodes: the re-parsed value is 09 EF BF BD (TAB, U+FFFD).  The same with DEL (written as
+    `\u007f`) in place of TAB.  (Go: `rtq` on 7b6128733a2209ff22297d answers `tree-differs:A-V`.) -/
+theorem C12_string_value_illformed_counterexample :
+    (∃ t c', readToken [34, 9, 255, 34] Cur.init = .tok t [] c' ∧ t.kind = .string ∧ t.value = [9, 255]) ∧
+    (∃ t c', readToken (quoteString [9, 255]) Cur.init = .tok t [] c' ∧ t.kind = .string ∧
+      t.value = [9, 0xEF, 0xBF, 0xBD]) ∧ strRaw [9, 255] = false := by
+  refine ⟨?_, ?_, by decide⟩
+  · simp [readToken, ws, readTokenBody, isNameStart, isDigit, readStringLoop.eq_def, decodeRune, runeError]
+  · simp [quoteString, gqlQuote, gqlQuoteBody, gqlEscapeByte, readToken, ws, readTokenBody, isNameStart, isDigit,
+      readStringLoop.eq_def, decodeRune, encodeRune, runeError, escapeOut]
